@@ -22,6 +22,9 @@ func init() {
 			"(parse.NewInput adopts that array and every minifier rewrites its input in place) — SSA provenance of the reader argument; (R10.2) each documented resource limit is in force: the limit comparison exists, its exceeded outcome leaves the function without doing work, and the guarded (recursive / quadratic) region is dominated by the within-limit outcome; the CSS nesting counter is incremented before and decremented after the recursive region on all paths.",
 		Run: runC10,
 	})
+	mutant(&Mutant{Name: "c10-local-string-stripped-without-length-test", Property: "C10", File: "css/css.go",
+		Old: "if fun == Local && 1 < len(data) && (data[0] == '\\'' || data[0] == '\"') {", New: "if fun == Local && (data[0] == '\\'' || data[0] == '\"') {",
+		Rule: "R10.9", Construct: "has both delimiters"})
 	mutant(&Mutant{Name: "c10-bytes-in-place", Property: "C10", File: "minify.go",
 		Old: "buffer.NewReader(in)); err != nil {\n\t\treturn v, err", New: "buffer.NewReader(v)); err != nil {\n\t\t_ = in\n\t\treturn v, err",
 		Rule: "R10.1", Construct: "M.Bytes"})
@@ -72,6 +75,7 @@ func runC10(c *Ctx) {
 	c.r105()
 	c.r106()
 	c.r108()
+	c.r109()
 }
 
 // lenLowerBound derives, from an outcome of a condition, a lower bound of len(<expr>) (by expression text).
